@@ -1,5 +1,5 @@
 (** C02 — Term::apply is capture-avoiding substitution (and refuses non-abstractions) *)
-From LC Require Import Model.Reduction Proofs.Apply.
+From LC Require Import Model.Reduction Proofs.Apply Proofs.MachineInt.
 
 (** the model of apply computes the textbook single-variable substitution ... *)
 Theorem C02_apply_is_subst : forall b a, apply_m (Abs b) a = inr (subst 1 a b).
@@ -27,8 +27,25 @@ Example C02_example :
   = inr (Abs (App (App (Var 3) (Abs (App (Var 6) (Var 1)))) (Abs (App (Var 1) (Abs (App (Var 7) (Var 1))))))).
 Proof. reflexivity. Qed.
 
+(** machine arithmetic: for ANY word size [W], if the largest index of the argument plus the binder depth of the receiver
+    (plus one), and the binder depth of the argument, are below [W], then none of the usize additions / subtractions
+    that [apply] performs over- or underflows ([apply_safe] is generated from the source next to [apply_m]); hence the
+    unbounded [nat] of the model computes what the crate computes, in debug and release builds.  Every contraction
+    the reducer performs inside a term that [fits] is covered, and sub-terms of a fitting term fit. *)
+Theorem C02_machine_arithmetic : forall W b rhs,
+  max_idx rhs + S (bdepth b) < W -> bdepth rhs < W -> apply_safe W (Abs b) rhs = true.
+Proof. exact apply_safe_ok. Qed.
+Theorem C02_machine_arithmetic_redex : forall W b a, fits W (App (Abs b) a) -> apply_safe W (Abs b) a = true.
+Proof. exact redex_safe. Qed.
+Theorem C02_fits_subterms : forall W l r b,
+  (fits W (App l r) -> fits W l /\ fits W r) /\ (fits W (Abs b) -> fits W b).
+Proof. intros. split; [apply fits_app|apply fits_abs]. Qed.
+
 Print Assumptions C02_apply_is_subst.
 Print Assumptions C02_apply_is_parallel_subst.
 Print Assumptions C02_not_abs.
 Print Assumptions C02_free_variables.
 Print Assumptions C02_ud_inert.
+Print Assumptions C02_machine_arithmetic.
+Print Assumptions C02_machine_arithmetic_redex.
+Print Assumptions C02_fits_subterms.
